@@ -787,6 +787,44 @@ func main() {
 				ins = append(ins, Input{Svc: sv, Proto: "tcp", N: len(pls), Kind: "sweep", Sweep: &SweepIn{Svc: sv, Scenario: 10, Silent: silent, N: len(pls), Payloads: pls}})
 			}
 		}
+		// the services that relay to a backend, against backends that refuse / stay silent /
+		// close early / reset / answer; a silent backend is waited for up to the proxies' own
+		// 30 s deadline: beside the pool
+		for _, kind := range proxyKinds {
+			for bk := range proxyBackends {
+				for _, silent := range []bool{false, true} {
+					if silent && (strings.HasSuffix(kind, "/udp") || bk != 1 && bk != 4) {
+						continue
+					}
+					if strings.HasSuffix(kind, "/udp") && (bk == 2 || bk == 3) {
+						continue // a datagram backend cannot close or reset: same as silent
+					}
+					n := 3
+					if bk == 1 {
+						n = 1 // every session waits out the proxy's 30 s for its backend
+					}
+					ins = append(ins, Input{Svc: "proxy", Proto: "tcp", N: n, Kind: "sweep", Slow: bk == 1,
+						Sweep: &SweepIn{Svc: "proxy:" + kind, Scenario: bk, Silent: silent, N: n}})
+				}
+			}
+		}
+		// terminal modes as a dimension of the buffer-filling input: inside a bracketed paste, after
+		// an IAC negotiation, in password (no-echo) mode - telnet and the ssh shell
+		for mode := 1; mode <= 3; mode++ {
+			for _, shape := range []int{0, 1, 3, 4, 6} {
+				ins = append(ins, Input{Svc: "telnet", Proto: "tcp", N: 2, Kind: "sweep", Sweep: &SweepIn{Svc: "telnet", Scenario: mode*100 + shape, N: 2}})
+			}
+			ins = append(ins, Input{Svc: "telnet", Proto: "tcp", N: 1, Kind: "sweep", Sweep: &SweepIn{Svc: "telnet", Scenario: mode*100 + 6, Silent: true, N: 1}})
+		}
+		ins = append(ins, Input{Svc: "telnet", Proto: "tcp", N: 2, Kind: "sweep", Sweep: &SweepIn{Svc: "telnet", Scenario: 6, N: 2}})
+		for mode := 0; mode <= 2; mode++ {
+			for _, shape := range []int{0, 6} {
+				if mode == 0 && shape == 0 {
+					continue // that is scenario 4 without Req
+				}
+				ins = append(ins, Input{Svc: "ssh-simulator", Proto: "tcp", N: 1, Kind: "sweep", Sweep: &SweepIn{Svc: "ssh-simulator", Scenario: 4, N: 1, Req: fmt.Sprintf("%d,%d", mode, shape)}})
+			}
+		}
 		// the real server: recovered panics and a shared port with silent clients (waits out the
 		// server's own 30 s idle timeout: beside the pool)
 		ins = append(ins, Input{Svc: "deploy", Proto: "tcp", N: len(deploySteps()), Kind: "sweep", Slow: true, Sweep: &SweepIn{Svc: "deploy", Scenario: 20, N: len(deploySteps())}})
@@ -868,6 +906,12 @@ func main() {
 			sp.SettleMs = passiveMs + 4000
 			if in.Sweep != nil && in.Slow {
 				sp.WaitMs += passiveMs + 15000
+			}
+			if in.Sweep != nil && strings.HasPrefix(in.Sweep.Svc, "proxy:") && in.Slow {
+				sp.WaitMs = 8000 + passiveMs + 2000 // the proxies' own 30 s wait for the backend, and a margin
+			}
+			if in.Sweep != nil && strings.HasPrefix(in.Sweep.Svc, "proxy:") && in.Sweep.Silent {
+				sp.DeadlineMs = 1000 // a silent client of a proxy: the idle deadline ends the relay
 			}
 			if in.Sweep != nil && in.Sweep.Svc == "deploy" {
 				sp.DeadlineMs, sp.WaitMs = realDeadlineMs, 20000 // the server's own idle timeout; generous margin
